@@ -22,6 +22,9 @@ func (d *Driver) batchPass(f *FuncVC, dir string, perQueryMs int) map[*Obl]Solve
 	}
 	byPrefix := map[int][]*Obl{}
 	for _, o := range vc.obls {
+		if o.Decided != "" {
+			continue
+		}
 		byPrefix[o.Prefix] = append(byPrefix[o.Prefix], o)
 	}
 	var body strings.Builder
